@@ -305,13 +305,17 @@ def run(ctx):
         for sername, ser in sorted(serializers.serializers.items()):
             traces.append(serializer_case(ser, sername, a, v))
     rng.shuffle(concrete)
-    pads = [None, "pad " * 40, "".join(chr(rng.randrange(0x100, 0x2fff)) for _ in range(130))]
+    # extra keyword argument that brings the request just over the compression threshold with text that does not compress
+    # (short high-entropy strings), next to no padding, repetitive padding and long non-ASCII padding
+    noise = "abcdefghijklmnopqrstuvwxyzABCDEFGHIJKLMNOPQRSTUVWXYZ0123456789!#$%&()*+,-./:;<=>?@[]^_{|}~"
+    pads = [None, "pad " * 40, "".join(chr(rng.randrange(0x100, 0x2fff)) for _ in range(130))] + \
+           ["".join(rng.choice(noise) for _ in range(n)) for n in (20, 40, 60, 80, 100, 140, 200)]
     jobs = []
     for i, (a, v) in enumerate(concrete[:ctx.pick(260, 2000)]):
         for k, sername in enumerate(sorted(serializers.serializers)):
             if ctx.quick and k != i % 4 and a["k"] not in ("bigint", "complex", "date", "datetime", "bytes"):
                 continue
-            jobs.append((sername, a, v, bool((i + k) % 2), pads[(i + k) % 3]))
+            jobs.append((sername, a, v, bool((i // 2 + k) % 2), pads[(i + k // 2) % len(pads)]))
     traces += network_cases(jobs)
     for tr in traces:
         bare = not tr["v"]["c"] and tr["v"]["k"] in ("none", "bool", "int", "float", "str")
